@@ -13,7 +13,9 @@ pub struct Pair { pub plain: Plain, pub prs: RSched, pub s1: u64, pub r1: u64, p
 #[derive(Clone, Debug, Serialize, Deserialize)]
 pub struct PassPair { pub plain: Plain, pub prs: RSched, pub w1: Vec<u8>, pub w2: Vec<u8>, pub salt: u64 }
 #[derive(Clone, Debug, Serialize, Deserialize)]
-pub struct CliCase { pub len: usize, pub names: (String, String), pub seed: u64, pub pass_mode: bool, pub to_stdout: bool }
+pub struct CliCase { pub len: usize, pub names: (String, String), pub seed: u64, pub pass_mode: bool, pub to_stdout: bool,
+    /// the FILE argument names a FIFO fed in pieces: the chunking is whatever the reads return, the length formula must still hold
+    #[serde(default)] pub fifo: bool }
 
 /// Parse by the documented layout; returns (cleartext fields, ciphertext lengths) or what is wrong.
 fn layout(f: &[u8], hdr: usize, reads: &[usize], plain_len: usize) -> Result<Vec<u8>, String> {
@@ -80,22 +82,25 @@ pub fn check_pass_pair(c: &PassPair) -> CheckResult {
     ok(!p.is_empty() && c.w1 != c.w2, "pass")
 }
 pub fn check_cli(c: &CliCase) -> CheckResult {
-    let sb = Sandbox::new(); let p = gen::bytes_from(c.seed, c.len); sb.write("m.bin", &p);
+    let sb = Sandbox::new(); let p = gen::bytes_from(c.seed, c.len); if !c.fifo { sb.write("m.bin", &p); }
+    let feed = |mut cmd: cli::Cmd| -> cli::Cmd { if c.fifo { cmd.fifos.push(("m.bin".into(), p.clone(), vec![c.len / 3 + 1, c.len / 3 + 1])); } cmd };
     let nchunks = if c.len == 0 { 1 } else { (c.len + CS - 1) / CS };
     let f = if c.pass_mode {
-        let r = if c.to_stdout { sb.cmd(&["password", "encrypt", "m.bin", "--env-pass"]).env("KESTREL_PASSWORD", &c.names.0).run() } else { sb.cmd(&["password", "encrypt", "m.bin", "-o", "c.ktl", "--env-pass"]).env("KESTREL_PASSWORD", &c.names.0).run() }; ensure!(r.code == Some(0), "password encrypt failed: {}", r.describe());
-        let f = if c.to_stdout { r.stdout.clone() } else { sb.read("c.ktl").ok_or("no output")? }; ensure!(f.len() == 36 + 32 * nchunks + c.len, "password-mode file is {} bytes for {} plaintext bytes in {} chunks", f.len(), c.len, nchunks);
+        let r = if c.to_stdout { feed(sb.cmd(&["password", "encrypt", "m.bin", "--env-pass"]).env("KESTREL_PASSWORD", &c.names.0)).run() } else { feed(sb.cmd(&["password", "encrypt", "m.bin", "-o", "c.ktl", "--env-pass"]).env("KESTREL_PASSWORD", &c.names.0)).run() }; ensure!(r.code == Some(0), "password encrypt failed: {}", r.describe());
+        let f = if c.to_stdout { r.stdout.clone() } else { sb.read("c.ktl").ok_or("no output")? }; let nchunks = if c.fifo { kspec::parse_records(&f[36.min(f.len())..]).map(|r| r.len()).unwrap_or(nchunks) } else { nchunks }; ensure!(f.len() == 36 + 32 * nchunks + c.len, "password-mode file is {} bytes for {} plaintext bytes in {} chunks", f.len(), c.len, nchunks);
         if c.names.0.len() >= 12 { ensure!(!find(&f, c.names.0.as_bytes()), "password occurs in the file"); } f
     } else {
         let (a, b) = (cli::make_ident(&c.names.0, c.seed, "pw"), cli::make_ident(&c.names.1, c.seed ^ 1, "pw"));
         sb.write("k.txt", cli::keyring_text(&[(&a, true), (&b, false)]).as_bytes());
-        let r = if c.to_stdout { sb.cmd(&["encrypt", "m.bin", "-t", &c.names.1, "-f", &c.names.0, "-k", "k.txt", "--env-pass"]).env("KESTREL_PASSWORD", "pw").run() } else { sb.cmd(&["encrypt", "m.bin", "-t", &c.names.1, "-f", &c.names.0, "-o", "c.ktl", "-k", "k.txt", "--env-pass"]).env("KESTREL_PASSWORD", "pw").run() }; ensure!(r.code == Some(0), "encrypt failed: {}", r.describe());
-        let f = if c.to_stdout { r.stdout.clone() } else { sb.read("c.ktl").ok_or("no output")? }; ensure!(f.len() == 132 + 32 * nchunks + c.len, "key-mode file is {} bytes for {} plaintext bytes in {} chunks", f.len(), c.len, nchunks);
+        let r = if c.to_stdout { feed(sb.cmd(&["encrypt", "m.bin", "-t", &c.names.1, "-f", &c.names.0, "-k", "k.txt", "--env-pass"]).env("KESTREL_PASSWORD", "pw")).run() } else { feed(sb.cmd(&["encrypt", "m.bin", "-t", &c.names.1, "-f", &c.names.0, "-o", "c.ktl", "-k", "k.txt", "--env-pass"]).env("KESTREL_PASSWORD", "pw")).run() }; ensure!(r.code == Some(0), "encrypt failed: {}", r.describe());
+        let f = if c.to_stdout { r.stdout.clone() } else { sb.read("c.ktl").ok_or("no output")? }; let nchunks = if c.fifo { kspec::parse_records(&f[132.min(f.len())..]).map(|r| r.len()).unwrap_or(nchunks) } else { nchunks }; ensure!(f.len() == 132 + 32 * nchunks + c.len, "key-mode file is {} bytes for {} plaintext bytes in {} chunks", f.len(), c.len, nchunks);
         for (n, who) in [(&c.names.0, "sender"), (&c.names.1, "recipient")] { ensure!(!find(&f, n.as_bytes()), "the keyring name of the {} occurs in the file", who); }
         for id in [&a, &b] { for (n, what) in needles(&id.pk) { ensure!(!find(&f, &n), "the {} occurs in a file written by the CLI", what); } } f
     };
-    let reads: Vec<usize> = (0..nchunks).map(|i| if c.len == 0 { 0 } else { (c.len - i * CS).min(CS) }).filter(|&l| l > 0).collect();
-    layout(&f, if c.pass_mode { 36 } else { 132 }, &reads, c.len)?;
+    let hdr = if c.pass_mode { 36 } else { 132 };
+    let reads: Vec<usize> = if c.fifo { kspec::parse_records(&f[hdr.min(f.len())..]).ok_or("the file written from a FIFO does not parse into records")?.iter().map(|r| r.len_field as usize).filter(|&l| l > 0).collect() } else { (0..nchunks).map(|i| if c.len == 0 { 0 } else { (c.len - i * CS).min(CS) }).filter(|&l| l > 0).collect() };
+    ensure!(reads.iter().sum::<usize>() == c.len, "the chunks of the file hold {} plaintext bytes, the input had {}", reads.iter().sum::<usize>(), c.len);
+    layout(&f, hdr, &reads, c.len)?;
     ok(c.len > 0, format!("cli/{}/{}chunks", if c.pass_mode { "pass" } else { "key" }, nchunks.min(4)))
 }
 
@@ -107,5 +112,5 @@ pub fn run(ctx: &Ctx) {
     ctx.pbt("payload_given_ephemeral_fresh", ctx.n(4_000, 100_000), || (gen::small_plain(300), gen::rsched_strategy(), any::<[u64; 6]>()).prop_map(|(plain, prs, k)| Pair { plain, prs, s1: k[0], r1: k[1], s2: k[2], r2: k[3], e: k[4], p: k[5] }), check_ponly);
     ctx.pbt("password_swap_pairs", ctx.n(100, 2_000), || (gen::small_plain(400), gen::rsched_strategy(), gen::password_strategy(), gen::password_strategy(), any::<u64>()).prop_map(|(plain, prs, w1, w2, salt)| PassPair { plain, prs, w1, w2, salt }), check_pass_pair);
     ctx.shrink_iters.store(20, std::sync::atomic::Ordering::Relaxed);
-    ctx.pbt("cli_files", ctx.n(40, 800), || (prop_oneof![3 => 0usize..3000, 1 => Just(CS), 1 => Just(CS + 1), 1 => CS..3 * CS], ("[a-zA-Z0-9]{12,24}", "[a-zA-Z0-9]{12,24}"), any::<u64>(), prop::bool::weighted(0.25), any::<bool>()).prop_map(|(len, names, seed, pass_mode, to_stdout)| CliCase { len, names, seed, pass_mode, to_stdout }), check_cli);
+    ctx.pbt("cli_files", ctx.n(40, 800), || (prop_oneof![3 => 0usize..3000, 1 => Just(CS), 1 => Just(CS + 1), 1 => CS..3 * CS], ("[a-zA-Z0-9]{12,24}", "[a-zA-Z0-9]{12,24}"), any::<u64>(), prop::bool::weighted(0.25), any::<bool>(), prop::bool::weighted(0.3)).prop_map(|(len, names, seed, pass_mode, to_stdout, fifo)| CliCase { len, names, seed, pass_mode, to_stdout, fifo }), check_cli);
 }
